@@ -78,11 +78,18 @@ class World:
         self.O = simnet.Remote(net, self.node, host='6.6.6.6')
         # the deliverer's greeting carries a header time stamp one hour ahead of the node's clock (the sender chooses
         # that field; nothing a peer says about time may move the node's own clock); the observer's is honest
+        # a second observer repeats its greeting on the same connection (nothing in the protocol forbids that): it is one
+        # peer all the same
+        self.O2 = simnet.Remote(net, self.node, host='6.6.6.7')
         self.D.hello(nonce=1, ts=int(W['now0']) + 3600)
         self.O.hello(nonce=2)
+        self.O2.hello(nonce=4)
+        self.node.tick()
+        self.O2.hello(nonce=4)
         self.node.tick()
         self.D.received()
         self.O.received()
+        self.O2.received()
         # one valid pending transaction (the 'a' spend at the base head)
         head = W['base_nodes'][-1]
         self.pending = ledger.tx_payload(head, 'a')[0][0]
@@ -154,6 +161,11 @@ class World:
             for hh, m in other.received():
                 if type(m).__name__ == 'DataMessage' and m.data_type == b'\x00\x00' and enc.blockid(m.data) == bid:
                     relays += 1
+        if self.O2.alive or self.O2.sock.rx:
+            relays2 = sum(1 for hh, m in self.O2.received()
+                          if type(m).__name__ == 'DataMessage' and m.data_type == b'\x00\x00' and enc.blockid(m.data) == bid)
+            if relays2 != relays and other.alive and relays2 > relays:
+                relays = relays2        # the observer that greeted twice got more copies than the one that greeted once
         who.received()
         return relays, who, other
 
